@@ -1,20 +1,22 @@
 ------------------------------ MODULE TwoPCTrace ------------------------------
 (* M-level trace specification (I->S): a recorded execution of real NewTwoPC replicas  *)
 (* must be a behaviour of TwoPC.tla. Logged events select the corresponding action of  *)
-(* the model; the proposer's internal regions (PCDecide, RollbackDone, AbortDone,      *)
+(* the model; the proposer's internal regions (PCStart after the back-off sleep, PCDecide, RollbackDone, AbortDone,      *)
 (* CommitDone, a retry loop that stops) leave no event and may happen at any time.     *)
 (* A case that cannot be followed is model drift (never a verdict): TSkip abandons it. *)
 (* Every case followed to its end prints <<"CONFORMS", case>>.                          *)
 EXTENDS TwoPC, Json
 
 Trace == ndJsonDeserialize("trace.ndjson")
-VARIABLES l, nxt, cid
-tvars == <<vars, l, nxt, cid>>
+VARIABLES l, nxt, cid,
+          todo      \* per writer: "abort" / "commit" once the driver's goroutine was told to call it, until the call begins
+tvars == <<vars, l, nxt, cid, todo>>
 
 Ev == Trace[l]
-Is(e) == l <= Len(Trace) /\ Trace[l].e = e /\ l' = l + 1 /\ UNCHANGED <<nxt, cid>>
+At(e) == l <= Len(Trace) /\ Trace[l].e = e /\ l' = l + 1 /\ UNCHANGED <<nxt, cid>>
+Is(e) == At(e) /\ UNCHANGED todo
 
-TInit == Init /\ l = 1 /\ nxt = 1 /\ cid = ""
+TInit == Init /\ l = 1 /\ nxt = 1 /\ cid = "" /\ todo = [n \in Nodes |-> ""]
 
 Reset ==
   /\ value' = [n \in Nodes |-> 0] /\ oldValue' = [n \in Nodes |-> 0] /\ version' = [n \in Nodes |-> 0]
@@ -28,11 +30,11 @@ Reset ==
   /\ act' = <<"init">>
 
 TCase == /\ l <= Len(Trace) /\ Trace[l].e = "case"
-         /\ l' = l + 1 /\ nxt' = l + Trace[l].len /\ cid' = Trace[l].case
+         /\ l' = l + 1 /\ nxt' = l + Trace[l].len /\ cid' = Trace[l].case /\ todo' = [n \in Nodes |-> ""]
          /\ Reset
 
 \* abandon the current case (drift): continue with the next one
-TSkip == /\ l <= Len(Trace) /\ Trace[l].e # "case" /\ l' = nxt /\ UNCHANGED <<vars, nxt, cid>>
+TSkip == /\ l <= Len(Trace) /\ Trace[l].e # "case" /\ l' = nxt /\ UNCHANGED <<vars, nxt, cid, todo>>
 
 MatchReq(m) == /\ m.from = Ev.from /\ m.to = Ev.to /\ m.type = Ev.t /\ m.ver = Ev.ver /\ m.st = Ev.st
                /\ (Ev.t = "Abort" \/ m.val = Ev.val)
@@ -40,7 +42,7 @@ RespIs(a, m) == LET r == RespOf(a, m) IN ~Ev.err /\ r.acc = Ev.acc /\ r.rver = E
 
 TRead   == Is("read") /\ Ev.ok /\ Ev.val = value[Ev.p] /\ Read(Ev.p)
 TWrite  == Is("write") /\ Write(Ev.p) /\ (Ev.ok <=> op'[Ev.p] = "insect") /\ (Ev.ok => value'[Ev.p] = Ev.val)
-TPCSt   == Is("pcstart") /\ PCStart(Ev.p)
+TPCSt   == Is("pcstart") /\ PCCall(Ev.p)
 TReq    == /\ Is("req")
            /\ \E m \in reqs : /\ MatchReq(m)
                               /\ IF m.sl THEN Wake(m) /\ [m EXCEPT !.sl = FALSE] \in reqs'
@@ -56,22 +58,26 @@ TRel    == /\ Is("rel")
                                /\ Ev.res = (IF r.err THEN "err" ELSE IF r.acc THEN "acc" ELSE "rej")
                                /\ Release(r)
 TPC     == Is("pc") /\ op[Ev.p] = (IF Ev.ok THEN "prepared" ELSE "failed") /\ UNCHANGED vars
-TCommSt == Is("commitstart") /\ CommitStart(Ev.p)
-TComm   == Is("commit") /\ op[Ev.p] = "idle" /\ UNCHANGED vars
-TAbSt   == Is("abortstart") /\ AbortCall(Ev.p)
-TAb     == Is("abort") /\ op[Ev.p] = "idle" /\ UNCHANGED vars
+\* Commit() and Abort() are called from a goroutine of the driver: the event says the call was ordered,
+\* the call itself (CommitStart / AbortCall of the model) begins some time later
+TCommSt == At("commitstart") /\ todo[Ev.p] = "" /\ todo' = [todo EXCEPT ![Ev.p] = "commit"] /\ UNCHANGED vars
+TComm   == Is("commit") /\ op[Ev.p] = "idle" /\ todo[Ev.p] = "" /\ UNCHANGED vars
+TAbSt   == At("abortstart") /\ todo[Ev.p] = "" /\ todo' = [todo EXCEPT ![Ev.p] = "abort"] /\ UNCHANGED vars
+TAb     == Is("abort") /\ op[Ev.p] = "idle" /\ todo[Ev.p] = "" /\ UNCHANGED vars
 TObs    == Is("obs") /\ version[Ev.n] = Ev.ver /\ oldValue[Ev.n] = Ev.val /\ UNCHANGED vars
 TSt     == /\ Is("st")
            /\ value[Ev.n] = Ev.value /\ oldValue[Ev.n] = Ev.oldValue /\ version[Ev.n] = Ev.version
            /\ cs[Ev.n] = Ev.cs /\ tpc[Ev.n] = Ev.tpc /\ acc[Ev.n].from = Ev.accFrom /\ acc[Ev.n].ver = Ev.accVer
            /\ UNCHANGED vars
 TSolo   == Is("solo") /\ GoSolo(Ev.p)
-TNoop   == l <= Len(Trace) /\ Trace[l].e \in {"dlv", "soloend", "drift", "gap"} /\ l' = l + 1 /\ UNCHANGED <<vars, nxt, cid>>
+TNoop   == l <= Len(Trace) /\ Trace[l].e \in {"dlv", "soloend", "drift", "gap"} /\ l' = l + 1 /\ UNCHANGED <<vars, nxt, cid, todo>>
 TEnd    == Is("end") /\ PrintT(<<"CONFORMS", cid>>) /\ UNCHANGED vars
 
 Hidden  == /\ UNCHANGED <<l, nxt, cid>>
-           /\ \/ \E p \in Writers : PCDecide(p) \/ RollbackDone(p) \/ AbortDone(p) \/ CommitDone(p)
-              \/ \E m \in reqs : m.sl /\ version[m.from] # m.ov /\ Wake(m)
+           /\ \/ UNCHANGED todo /\ \E p \in Writers : PCStart(p) \/ PCDecide(p) \/ RollbackDone(p) \/ AbortDone(p) \/ CommitDone(p)
+              \/ UNCHANGED todo /\ \E m \in reqs : m.sl /\ version[m.from] # m.ov /\ Wake(m)
+              \/ \E p \in Writers : /\ todo[p] # "" /\ todo' = [todo EXCEPT ![p] = ""]
+                                      /\ IF todo[p] = "commit" THEN CommitStart(p) ELSE AbortCall(p)
 
 TNext0 == TCase \/ TSkip \/ TRead \/ TWrite \/ TPCSt \/ TReq \/ TRsp \/ TDropRq \/ TRel \/ TPC \/ TCommSt \/ TComm
           \/ TAbSt \/ TAb \/ TObs \/ TSt \/ TSolo \/ TNoop \/ TEnd \/ Hidden
